@@ -11,30 +11,67 @@ import (
 	"verif/harness/internal/ev"
 )
 
-// Candidate-cell enumeration for character recipes (DESIGN 2.4).
+// Attempt enumeration for character recipes (DESIGN 2.4, revised in 9.7).
 //
-// A character recipe with requirements retries whole candidates. The engine
-// enumerates one candidate cell at a time: every vector of index choices for
-// the D draws of one candidate, behind a fixed prefix of rejected candidates,
-// with the choices of a known accepted candidate served to every draw beyond
-// the cell. D is measured, not assumed.
+// A character recipe with requirements retries whole candidates. Nothing
+// here assumes how many draws an attempt makes, that every attempt makes the
+// same number, or how draws map to characters. Two exported knobs of the
+// package (MaxTrials, MaxFailRate) are used instead:
+//
+//   - with the budget set to ONE attempt, a call to Generate is exactly one
+//     attempt: it returns the candidate (accepted) or an error (rejected). The
+//     complete tree of index choices of that call is the distribution of one
+//     attempt, whatever its shape;
+//   - "failing candidates are discarded and redrawn whole" then is a relation
+//     between calls: under the real budget, the choices of k rejected attempts
+//     followed by the choices of an attempt A give exactly A's single-attempt
+//     outcome, after exactly the sum of their draws (chainCheck).
+
+// singleAttempt runs f with the retry budget set to one attempt.
+func singleAttempt(f func()) {
+	oT, oR := spg.MaxTrials, spg.MaxFailRate
+	spg.MaxTrials, spg.MaxFailRate = 1, 1
+	defer func() { spg.MaxTrials, spg.MaxFailRate = oT, oR }()
+	f()
+}
+
+// attemptForced is one single-attempt call under forced choices.
+func attemptForced(choices []uint32, cont func(k int, n uint32) uint32, key uint64, g func() (*spg.Password, error)) (o outcome) {
+	singleAttempt(func() { o = callForced(choices, cont, key, g) })
+	return o
+}
+
+func choicesOf(s *enum.Session) []uint32 {
+	v := make([]uint32, len(s.Draws))
+	for j, d := range s.Draws {
+		v[j] = d.Choice
+	}
+	return v
+}
 
 type refLeaf struct {
-	D       int
-	Choices []uint32 // choices of an accepted first candidate
+	D       int      // number of draws of THIS accepted attempt
+	Choices []uint32 // its choices
 	Out     string
 }
 
-// findRef finds an accepted candidate and the number D of draws per candidate
-// without assuming either. Any successful forced run ends with an accepted
-// candidate, so its last D choices are one; D is the smallest divisor d of the
-// run's total number of draws for which forcing the last d choices (repeated
-// cyclically) succeeds after exactly d draws. (A smaller d cannot pass: the
-// first candidate alone consumes D > d draws. D itself passes.)
+// cyc serves the reference attempt's choices cyclically from draw `from` on.
+func (r *refLeaf) cyc(from int) func(k int, n uint32) uint32 {
+	return func(k int, n uint32) uint32 {
+		j := (k - from) % r.D
+		if j < 0 {
+			j += r.D
+		}
+		return r.Choices[j]
+	}
+}
+
+// findRef finds, by forcing pseudo-random choices on single attempts, an
+// accepted attempt.
 func findRef(r spg.CharRecipe, key uint64, tries int) (*refLeaf, error) {
 	for i := 0; i < tries; i++ {
 		k := ev.Mix64(key, uint64(i))
-		o := callForced(nil, func(j int, n uint32) uint32 { return uint32(ev.Mix64(k, uint64(j)) % uint64(n)) }, k, r.Generate)
+		o := attemptForced(nil, func(j int, n uint32) uint32 { return uint32(ev.Mix64(k, uint64(j)) % uint64(n)) }, k, r.Generate)
 		if o.Panic != nil {
 			return nil, fmt.Errorf("Generate panicked: %v", o.Panic)
 		}
@@ -44,86 +81,74 @@ func findRef(r spg.CharRecipe, key uint64, tries int) (*refLeaf, error) {
 		if o.Pw == nil {
 			continue
 		}
-		T := len(o.S.Draws)
-		if T == 0 {
+		if len(o.S.Draws) == 0 {
 			return nil, &ev.Skip{Why: "generation makes no random choice"}
 		}
-		all := make([]uint32, T)
-		for j, dr := range o.S.Draws {
-			all[j] = dr.Choice
+		ch := choicesOf(o.S)
+		// the attempt must be reproducible from its choices alone
+		oo := attemptForced(ch, nil, k^0x77, r.Generate)
+		if oo.Pw == nil || oo.Pw.String() != o.Pw.String() || len(oo.S.Draws) != len(ch) {
+			return nil, &ev.Inc{Why: "an attempt is not a function of its index choices"}
 		}
-		for d := 1; d <= T; d++ {
-			if T%d != 0 {
-				continue
-			}
-			ch := append([]uint32{}, all[T-d:]...)
-			oo := callForced(ch, func(j int, n uint32) uint32 { return ch[j%d] }, k^0x77, r.Generate)
-			if oo.Panic != nil {
-				return nil, fmt.Errorf("Generate panicked: %v", oo.Panic)
-			}
-			if oo.Pw != nil && len(oo.S.Draws) == d {
-				return &refLeaf{D: d, Choices: ch, Out: oo.Pw.String()}, nil
-			}
-		}
-		return nil, &ev.Inc{Why: "could not determine the number of draws per candidate"}
+		return &refLeaf{D: len(ch), Choices: ch, Out: o.Pw.String()}, nil
 	}
-	return nil, &ev.Skip{Why: "no successful generation found by forcing"}
+	return nil, &ev.Skip{Why: "no successful attempt found by forcing"}
+}
+
+// findRejectedAttempt looks for a rejected attempt the same way.
+func findRejectedAttempt(r spg.CharRecipe, key uint64, tries int) ([]uint32, error) {
+	for i := 0; i < tries; i++ {
+		k := ev.Mix64(key^0xabcdef, uint64(i))
+		o := attemptForced(nil, func(j int, n uint32) uint32 { return uint32(ev.Mix64(k, uint64(j)) % uint64(n)) }, k, r.Generate)
+		if o.Panic != nil {
+			return nil, fmt.Errorf("Generate panicked: %v", o.Panic)
+		}
+		if e := o.S.IndexLevelOK(); e != nil {
+			return nil, &ev.Inc{Why: e.Error()}
+		}
+		if o.Pw == nil && o.Err != nil && len(o.S.Draws) > 0 {
+			return choicesOf(o.S), nil
+		}
+	}
+	return nil, nil
+}
+
+type cellLeaf struct {
+	Vec []uint32
+	Out string
+	Acc bool
 }
 
 type cellResult struct {
 	Ref       *refLeaf
-	Bounds    []uint32
 	Accepted  map[string]*big.Rat
 	NAccepted int
 	NRejected int
 	AccW      *big.Rat
 	RejW      *big.Rat
-	Rejected  [][]uint32 // some rejected candidates' choices
+	Rejected  [][]uint32 // some rejected attempts' choices
 	EntBits   map[uint32]int
 	Leaves    int
+	All       []cellLeaf // every leaf, kept while the tree is small (chainCheck)
 }
 
-// enumCell enumerates the candidate cell behind `prefix` (a concatenation of
-// rejected candidates' choices).
-func enumCell(r spg.CharRecipe, ref *refLeaf, prefix []uint32, maxLeaves int) (*cellResult, error) {
+const keepLeaves = 3000
+
+// enumCell enumerates the complete tree of one attempt.
+func enumCell(r spg.CharRecipe, ref *refLeaf, maxLeaves int) (*cellResult, error) {
 	res := &cellResult{Ref: ref, Accepted: map[string]*big.Rat{}, AccW: new(big.Rat), RejW: new(big.Rat), EntBits: map[uint32]int{}}
-	D := ref.D
-	P := len(prefix)
-	cont := func(k int, n uint32) uint32 {
-		j := (k - P) % D
-		if j < 0 {
-			j += D
-		}
-		return ref.Choices[j]
-	}
 	var out outcome
-	leaves, err := enum.Enumerate(enum.Opts{Prefix: prefix, Depth: D, Cont: cont, MaxLeaves: maxLeaves, TailKey: 0x51}, func(s *enum.Session) {
+	leaves, err := enum.Enumerate(enum.Opts{MaxLeaves: maxLeaves, TailKey: 0x51}, func(s *enum.Session) {
 		out = outcome{}
-		s.Run(func() { out.Pw, out.Err = r.Generate() })
+		singleAttempt(func() { s.Run(func() { out.Pw, out.Err = r.Generate() }) })
 		out.Panic, out.S = s.Panic, s
 	}, func(l *enum.Leaf) error {
 		if out.Panic != nil {
 			return fmt.Errorf("Generate panicked: %v", out.Panic)
 		}
-		total := len(l.S.Draws) - P
-		if len(l.Region) != D {
-			return fmt.Errorf("a candidate consumed %d draws, another %d: the number of draws per candidate is not constant", len(l.Region), D)
-		}
-		if res.Bounds == nil {
-			for _, d := range l.Region {
-				res.Bounds = append(res.Bounds, d.Bound)
-			}
-		}
-		last := P/D == spg.MaxTrials-1 && P%D == 0 // the cell is the last permitted attempt
+		lf := cellLeaf{Vec: choicesOf(l.S)}
 		switch {
-		case total == D && last && out.Pw == nil && out.Err != nil:
-			// rejected on the last permitted attempt: an error, no further draws
-			res.RejW.Add(res.RejW, l.Weight)
-			res.NRejected++
-		case total == D:
-			if out.Pw == nil {
-				return fmt.Errorf("candidate consumed %d draws and Generate returned no password (err=%v)", D, out.Err)
-			}
+		case out.Pw != nil:
 			s := out.Pw.String()
 			w, ok := res.Accepted[s]
 			if !ok {
@@ -134,32 +159,123 @@ func enumCell(r spg.CharRecipe, ref *refLeaf, prefix []uint32, maxLeaves int) (*
 			res.AccW.Add(res.AccW, l.Weight)
 			res.NAccepted++
 			res.EntBits[math.Float32bits(out.Pw.Entropy)]++
-		case total == 2*D:
-			if out.Pw == nil || out.Pw.String() != ref.Out {
-				got := "<nil>"
-				if out.Pw != nil {
-					got = out.Pw.String()
-				}
-				return fmt.Errorf("after a rejected candidate the next candidate's draws %v produced %q, but the same draws produce %q on a fresh start: a retry is not a complete redraw", ref.Choices, got, ref.Out)
-			}
+			lf.Out, lf.Acc = s, true
+		case out.Err != nil:
 			res.RejW.Add(res.RejW, l.Weight)
 			res.NRejected++
-			if len(res.Rejected) < 16 {
-				ch := make([]uint32, D)
-				for j, d := range l.Region {
-					ch[j] = d.Choice
-				}
-				res.Rejected = append(res.Rejected, ch)
+			if len(lf.Vec) > 0 && len(res.Rejected) < 16 {
+				res.Rejected = append(res.Rejected, lf.Vec)
 			}
 		default:
-			return fmt.Errorf("a rejected candidate was followed by %d further draws before success (a complete redraw takes %d)", total-D, D)
+			return fmt.Errorf("Generate returned neither a password nor an error")
+		}
+		if len(res.All) <= keepLeaves {
+			res.All = append(res.All, lf)
 		}
 		return nil
 	})
 	res.Leaves = leaves
+	if leaves > keepLeaves {
+		res.All = nil
+	}
 	ev.Leaves(int64(leaves))
 	if err == enum.ErrTooBig {
-		err = &ev.Inc{Why: "candidate cell larger than the reference predicts (leaf budget exceeded)"}
+		err = &ev.Inc{Why: "attempt tree larger than the reference predicts (leaf budget exceeded)"}
 	}
 	return res, err
+}
+
+// chainCheck: under the real budget, behind the choices of the given rejected
+// attempts, every attempt of the enumerated tree has exactly its single-attempt
+// outcome - an accepted one is returned as is; a rejected one is followed by a
+// complete, fresh attempt (the reference), or by an error if it was the last
+// permitted. It returns the number of runs made.
+func chainCheck(r spg.CharRecipe, cell *cellResult, rejected [][]uint32) (int, error) {
+	ref := cell.Ref
+	var prefix []uint32
+	for _, v := range rejected {
+		prefix = append(prefix, v...)
+	}
+	P := len(prefix)
+	last := len(rejected) == spg.MaxTrials-1
+	runs := 0
+	for _, lf := range cell.All {
+		ch := append(append([]uint32{}, prefix...), lf.Vec...)
+		o := callForced(ch, ref.cyc(len(ch)), 0x52, r.Generate)
+		runs++
+		if o.Panic != nil {
+			return runs, fmt.Errorf("Generate panicked: %v", o.Panic)
+		}
+		if e := o.S.IndexLevelOK(); e != nil {
+			return runs, &ev.Inc{Why: e.Error()}
+		}
+		got := "<error>"
+		if o.Pw != nil {
+			got = o.Pw.String()
+		}
+		nd := len(o.S.Draws)
+		switch {
+		case lf.Acc:
+			if got != lf.Out {
+				return runs, fmt.Errorf("behind %d rejected attempts the draws %v produced %q, but the same draws produce %q on a fresh start: a retry is not a complete, independent redraw", len(rejected), lf.Vec, got, lf.Out)
+			}
+			if nd != len(ch) {
+				return runs, fmt.Errorf("behind %d rejected attempts (%d draws) an accepted attempt of %d draws was returned after %d draws", len(rejected), P, len(lf.Vec), nd)
+			}
+		case last:
+			if o.Pw != nil || o.Err == nil {
+				return runs, fmt.Errorf("attempt %d of %d permitted was rejected and Generate still returned %q", len(rejected)+1, spg.MaxTrials, got)
+			}
+			if nd != len(ch) {
+				return runs, fmt.Errorf("the last permitted attempt failed after %d draws in all, but Generate made %d draws: more attempts than permitted", len(ch), nd)
+			}
+		default:
+			if got != ref.Out {
+				return runs, fmt.Errorf("after a rejected attempt (draws %v, behind %d others) the next attempt's draws %v produced %q, but the same draws produce %q on a fresh start: a retry is not a complete redraw", lf.Vec, len(rejected), ref.Choices, got, ref.Out)
+			}
+			if nd != len(ch)+ref.D {
+				return runs, fmt.Errorf("a rejected attempt was followed by %d further draws before success (a complete fresh attempt takes %d)", nd-len(ch), ref.D)
+			}
+		}
+	}
+	ev.Leaves(int64(runs))
+	return runs, nil
+}
+
+// budgetCheck: MaxTrials rejected attempts in a row give an error after
+// exactly their draws, and one fewer followed by an accepted attempt gives that
+// attempt's password.
+func budgetCheck(r spg.CharRecipe, ref *refLeaf, rejected [][]uint32) error {
+	if len(rejected) == 0 {
+		return nil
+	}
+	var all []uint32
+	lastStart := 0
+	for i := 0; i < spg.MaxTrials; i++ {
+		lastStart = len(all)
+		all = append(all, rejected[i%len(rejected)]...)
+	}
+	o := callForced(all, ref.cyc(len(all)), 9, r.Generate)
+	if o.Panic != nil {
+		return fmt.Errorf("panic when every attempt fails: %v", o.Panic)
+	}
+	if e := o.S.IndexLevelOK(); e != nil {
+		return &ev.Inc{Why: e.Error()}
+	}
+	if o.Pw != nil || o.Err == nil {
+		return fmt.Errorf("after %d rejected attempts Generate returned a password (%d draws; %d permitted attempts take %d)", spg.MaxTrials, len(o.S.Draws), spg.MaxTrials, len(all))
+	}
+	if len(o.S.Draws) != len(all) {
+		return fmt.Errorf("with every attempt failing Generate made %d draws; the %d permitted attempts take %d", len(o.S.Draws), spg.MaxTrials, len(all))
+	}
+	// the last permitted attempt is really used
+	ch := append(append([]uint32{}, all[:lastStart]...), ref.Choices...)
+	o = callForced(ch, ref.cyc(len(ch)), 9, r.Generate)
+	if o.Panic != nil {
+		return fmt.Errorf("panic on the last permitted attempt: %v", o.Panic)
+	}
+	if o.Pw == nil || o.Pw.String() != ref.Out {
+		return fmt.Errorf("%d attempts are permitted; after %d rejected ones a valid attempt (%q) was not returned (err=%v)", spg.MaxTrials, spg.MaxTrials-1, ref.Out, o.Err)
+	}
+	return nil
 }
